@@ -232,6 +232,20 @@ def build_shared_features_map(mod: fx.GraphModule) -> Dict[fx.Node, PITFeaturesM
     for n in nodes_to_remove:
         sharing_graph.remove_node(n)
 
+    # the incoming edges of a features concatenation have been removed above, but when its result
+    # reaches a network output with its features unchanged, the concatenated tensors must keep their
+    # width as well: tag them as output-connected (visiting the graph backwards handles nested concats)
+    undirected = sharing_graph.to_undirected(as_view=True)
+    for n in reversed(list(mod.graph.nodes)):
+        if n in sharing_graph.nodes and n.meta['features_concatenate']:
+            c = nx.node_connected_component(undirected, n)
+            if (
+                any(i in get_graph_outputs(mod.graph) for i in c) or
+                any(i.meta.get('output_connected', False) for i in c)
+            ):
+                for i in n.all_input_nodes:
+                    i.meta['output_connected'] = True
+
     # each weakly connected component of the sharing graph must share the same features masker
     sm_dict = {}
     for c in nx.weakly_connected_components(sharing_graph):
